@@ -111,7 +111,7 @@ theorem rank_reaches_zero (cfg : Config) (K T : Nat) (c : Controls) (x : World) 
 /-- The rank of every coherent state is at most three register writes plus one transmission. -/
 theorem rank_le (K T v04 v0A : Nat) (x : World) (hc : Coh x) (hl : Live K x) :
     rank K T v04 v0A x ≤ 3 * (2 * K + 6) + T := by
-  obtain ⟨⟨win, ctl, tx, rx, rdy, cnt⟩, ⟨pb, r4, rA, po, pw⟩, ⟨pd, wt, tl, mh, dn⟩⟩ := x
+  obtain ⟨⟨win, ctl, tx, rx, rdy, cnt⟩, ⟨pb, r4, rA, po, pw⟩, ⟨pd, wt, tl, mh, dn, a4, aA⟩⟩ := x
   obtain ⟨wst, ca, cw, d, oq, sp, wdn, rd⟩ := win
   obtain ⟨tst, treq⟩ := tx
   obtain ⟨l2, l3, l4⟩ := hl
@@ -138,7 +138,7 @@ theorem rank_zero_settled (K T v04 v0A : Nat) (x : World) (hc : Coh x) (hl : Liv
     (hz : rank K T v04 v0A x = 0) :
     x.u.win.st = .idle ∧ x.u.win.done = false ∧ x.u.ctl.busy = false ∧
     x.u.ctl.cur04 = v04 ∧ x.u.ctl.cur0A = v0A ∧ x.p.r04 = v04 ∧ x.p.r0A = v0A := by
-  obtain ⟨⟨win, ctl, tx, rx, rdy, cnt⟩, ⟨pb, r4, rA, po, pw⟩, ⟨pd, wt, tl, mh, dn⟩⟩ := x
+  obtain ⟨⟨win, ctl, tx, rx, rdy, cnt⟩, ⟨pb, r4, rA, po, pw⟩, ⟨pd, wt, tl, mh, dn, a4, aA⟩⟩ := x
   obtain ⟨wst, ca, cw, d, oq, sp, wdn, rd⟩ := win
   obtain ⟨c4, cA, cb⟩ := ctl
   obtain ⟨l2, l3, l4⟩ := hl
